@@ -1,4 +1,5 @@
-(* TableGetProofs.v -- ldb_table_internal_get on a built table (compression off):
+(* TableGetProofs.v -- ldb_table_internal_get on a built table (any compression function
+   that the Snappy decoder inverts; table file below 4 GiB):
    - the call never fails (status OK, no out-of-bounds access);
    - a key that is in the table is found, with its value, whatever the filter;
    - for any key, the entry handed to the caller is either nothing or THE successor of
